@@ -6,9 +6,19 @@
    History: before /repo f4a117d the statement needed "the dry re-staging of the workspace
    succeeds" and was refuted without it (old = None after a swallowed FileNotFoundError, every key
    ADD, linked over without _remove); the refutation witness is now C05_former_witness_refuses.
-   C05_refusal needs the key order to be duplicate-free (it is the iteration order of a Python set). *)
+   C05_refusal needs the key order to be duplicate-free (it is the iteration order of a Python set).
+
+   ROOT deletions.  C05_no_loss above is about non-falsy directory targets, whose diff never deletes the
+   ROOT entry - the model had no ROOT deletion at all, which is why it held while the code lost data
+   on `checkout(path, fs, None, ...)` (finding C05:unrecoverable-lost:root-deleted-before-children,
+   repaired by /repo 38c4abf).  The falsy target is now modelled (checkout_rm): every key of the old
+   tree and ROOT are deleted, ROOT's guard reads the cache lookup of the old tree's .dir object, its
+   removal takes everything still below it.  C05_no_loss_falsy_target holds for EVERY deletion order that
+   handles every file before the root entry (the repaired loop: root last; the generated fact
+   gen_delete_root_last ties it to the source) and C05_no_loss_refuted_root_first shows it is false for
+   an order with the root first. *)
 From Coq Require Import NArith List Bool.
-From DvcData Require Import Base.Val Base.PyBase Model.ObjCheckout Proofs.ObjCheckoutProofs Proofs.ObjCheckoutProofs2 Proofs.ObjCoBase Proofs.ObjCoRefusal.
+From DvcData Require Import Base.Val Base.PyBase Gen.ObjCheckout Model.ObjCheckout Proofs.ObjCheckoutProofs Proofs.ObjCheckoutProofs2 Proofs.ObjCoBase Proofs.ObjCoRefusal Proofs.ObjCoRm.
 Import ListNotations.
 Open Scope N_scope.
 
@@ -49,6 +59,32 @@ Theorem C05_history_instance :
   option_map f_bytes (kassoc k (snd (hstep H s (HCheckout g2 [(k, [1; 66])] [k])))) = Some [65].
 Proof. vm_compute. repeat split; reflexivity. Qed.
 Print Assumptions C05_history_instance.
+
+(* falsy target (None; "remove this output"): for every cache, every value [ric] of "the old tree's .dir
+   object is in the cache", every prompt and every deletion order [ds] in which each file of the workspace
+   comes before the (first) root entry *)
+Theorem C05_no_loss_falsy_target : forall (H : bytes -> oid), (forall b, is_nil (H b) = false) ->
+  forall g c w ric ds k n,
+  stageable w = true -> covered_before_root w [] ds -> kassoc k w = Some n ->
+  kassoc k (r_ws (checkout_rm H g c w ric ds)) = Some n \/
+  g_force g = true \/ (exists co, oassoc (H (f_bytes n)) c = Some co) \/
+  (exists f, g_prompt g = Some f /\ f k = true).
+Proof. intros H Hne g c w ric ds k n Hs Hc Hk. exact (rm_no_loss H Hne g c w Hs ric ds k n Hc Hk). Qed.
+Print Assumptions C05_no_loss_falsy_target.
+
+(* ... and the loop of the source does handle the root entry last *)
+Theorem C05_delete_loop_root_last : Gen.ObjCheckout.gen_delete_root_last = true.
+Proof. exact gen_root_last. Qed.
+Print Assumptions C05_delete_loop_root_last.
+
+(* without "root last": refuted (the defect repaired by 38c4abf, same input shape as its reproduction) *)
+Theorem C05_no_loss_refuted_root_first :
+  exists (H : bytes -> oid) g c w ric ds k n,
+    kassoc k w = Some n /\ (forall q m, kassoc q w = Some m -> In (DKey q) ds) /\
+    ~ (kassoc k (r_ws (checkout_rm H g c w ric ds)) = Some n \/ g_force g = true \/
+       (exists co, oassoc (H (f_bytes n)) c = Some co) \/ (exists f, g_prompt g = Some f /\ f k = true)).
+Proof. exact rm_no_loss_refuted_root_first. Qed.
+Print Assumptions C05_no_loss_refuted_root_first.
 
 (* a refusal (PromptError path) leaves that path exactly as it was before the call - whatever was
    done to other paths before the refusal *)
